@@ -641,7 +641,7 @@ def c17(acc):
     return acc.finish()
 
 
-RT_TYPES = ["F01", "F02", "F03", "F04", "F05", "F07", "F08", "F11", "F15", "F16", "F17", "F18", "F19", "F20", "F22", "F23", "F24", "F25", "F26", "F27", "F28", "F29", "F30", "F31"]
+RT_TYPES = ["F01", "F02", "F03", "F04", "F05", "F07", "F08", "F11", "F15", "F16", "F17", "F18", "F19", "F20", "F22", "F23", "F24", "F25", "F26", "F27", "F28", "F29", "F30", "F31", "F32", "F33"]
 
 
 def mc_serde(acc, types, mode, name, timeout=2500):
@@ -808,7 +808,7 @@ def c20(acc):
                 "document deserialized without limit (must equal the value) and with event_buffer_size = 1..total+1: the value or TooManyEvents, TooManyEvents "
                 "whenever Held > limit, monotone in the limit. non-trivial = interleavings that need buffering")
     acc.trusted = SERDE_TRUST
-    _, p = mc_de(acc, "interleave", 1, ["F22", "F23", "F26", "F29"], "MC_De-inter")
+    _, p = mc_de(acc, "interleave", 1, ["F22", "F23", "F26", "F29", "F33"], "MC_De-inter")
     de_replay(acc, p, "interleave", "B:interleavings x buffer limits")
     return acc.finish()
 
